@@ -207,10 +207,10 @@ func encTextList(l []string) string {
 }
 
 var (
-	engine       = rsync.NewEngine()
-	validSigs    = []*rsync.Signature{{}, engine.BytesSignature([]byte("some base content"), 0), engine.BytesSignature(bytes.Repeat([]byte{7}, 5000), 0)}
-	invalidSigs  = []*rsync.Signature{{BlockSize: 0, LastBlockSize: 5}, {BlockSize: 10, LastBlockSize: 0}, {BlockSize: 4, LastBlockSize: 9, Hashes: []*rsync.BlockHash{{Weak: 1, Strong: []byte{1}}}}}
-	sigCounter   int
+	engine      = rsync.NewEngine()
+	validSigs   = []*rsync.Signature{{}, engine.BytesSignature([]byte("some base content"), 0), engine.BytesSignature(bytes.Repeat([]byte{7}, 5000), 0)}
+	invalidSigs = []*rsync.Signature{{BlockSize: 0, LastBlockSize: 5}, {BlockSize: 10, LastBlockSize: 0}, {BlockSize: 4, LastBlockSize: 9, Hashes: []*rsync.BlockHash{{Weak: 1, Strong: []byte{1}}}}}
+	sigCounter  int
 )
 
 func makeSigs(spec string) ([]*rsync.Signature, bool) {
